@@ -2405,3 +2405,333 @@ Proof.
   rewrite Hl, <- owner_expected.
   apply pinv_owner_same. apply (same_elems_fold evs2 L (live_run evs1) HL (proj1 Hok1) Hsame).
 Qed.
+
+(* ================================================================== *)
+(* 10. any number of SRGs sharing one sender and one receiver           *)
+(* ================================================================== *)
+(* what /repo HEAD's receiver uses of a stream: the j-th request carries the checkpoint and the action of the j-th
+   event; SRG name and sequence number only feed lastSeq, which nothing consults *)
+Definition stream_of (evs : list (session * bool)) (reqs : list req) : Prop :=
+  length reqs = length evs /\
+  forall j q, nth_error reqs j = Some q ->
+    exists s rel, nth_error evs j = Some (s, rel) /\ q_act q = act_of rel /\ q_cp q = s2c s.
+
+Lemma head_delivery_gen g0 fl evs reqs m d m' :
+  stream_of evs reqs ->
+  f_stale fl = true -> f_drop fl = false -> f_relall fl = false ->
+  delivery_latest reqs m d m' ->
+  (forall i, (i <= length evs)%nat -> uniq g0 (live_fold [] (firstn i evs))) ->
+  forall rc, (m <= length evs)%nat -> pinv g0 rc (live_fold [] (firstn m evs)) ->
+  pinv g0 (recv_run fl rc d) (live_fold [] (firstn m' evs)).
+Proof.
+  intros Hstr Hs Hd Hr Hdel Hu.
+  induction Hdel as [m|m q d m' Hq Hdel IH|m k q d m' Hk Hq Hlat Hdel IH]; intros rc Hml Hp; [exact Hp| |].
+  - rewrite recv_run_cons.
+    assert (Hm : (S m <= length evs)%nat).
+    { rewrite <- (proj1 Hstr). apply nth_error_Some. congruence. }
+    apply IH; [exact Hm|].
+    destruct (proj2 Hstr _ _ Hq) as (s & rel & He & Ha & Hc).
+    rewrite (recv_step_head fl rc q Hs Hd Hr). cbv zeta. rewrite Ha, Hc.
+    rewrite (firstn_snoc m evs _ He), live_fold_app, live_fold_one.
+    pose proof (Hu m ltac:(lia)) as U0. pose proof (Hu (S m) Hm) as U1.
+    rewrite (firstn_snoc m evs _ He), live_fold_app, live_fold_one in U1.
+    destruct Hp as (Hstore & Hrest). unfold live_step in *. destruct rel; cbn [act_of].
+    + apply (pinv_delete g0 rc _ s); [split; assumption|exact U0].
+    + apply (pinv_update g0 rc _ s); [split; assumption|exact U0|exact U1].
+  - rewrite recv_run_cons. apply IH; [exact Hml|].
+    destruct (proj2 Hstr _ _ Hq) as (s & rel & He & Ha & Hc).
+    rewrite (recv_step_head fl rc q Hs Hd Hr). cbv zeta. rewrite Ha, Hc.
+    assert (Hsame : live_step (live_fold [] (firstn m evs)) s rel = live_fold [] (firstn m evs)).
+    { apply (live_latest evs k m s rel He Hk). intros j [s' rel'] Hj Hj'.
+      assert (Hlen : (j < length reqs)%nat) by (rewrite (proj1 Hstr); apply nth_error_Some; congruence).
+      destruct (nth_error reqs j) as [q'|] eqn:Eq'; [|apply nth_error_None in Eq'; lia].
+      destruct (proj2 Hstr _ _ Eq') as (s2 & rel2 & He2 & _ & Hc2).
+      rewrite Hj' in He2. inversion He2; subst s2 rel2. simpl.
+      pose proof (Hlat j q' Hj Eq') as Hne. rewrite Hc2, Hc, !cp_key_s2c in Hne. exact Hne. }
+    pose proof (Hu m Hml) as U0.
+    destruct Hp as (Hstore & Hrest). rewrite <- Hsame. unfold live_step in Hsame |- *. destruct rel; cbn [act_of].
+    + apply (pinv_delete g0 rc _ s); [split; assumption|exact U0].
+    + apply (pinv_update g0 rc _ s); [split; assumption|exact U0|]. rewrite Hsame. exact U0.
+Qed.
+
+Lemma head_delivery_store_gen fl evs reqs m d m' :
+  stream_of evs reqs ->
+  f_stale fl = true -> f_drop fl = false -> f_relall fl = false ->
+  delivery_latest reqs m d m' ->
+  forall rc, rc_store rc = expected_store (live_fold [] (firstn m evs)) ->
+  rc_store (recv_run fl rc d) = expected_store (live_fold [] (firstn m' evs)).
+Proof.
+  intros Hstr Hs Hd Hr Hdel.
+  induction Hdel as [m|m q d m' Hq Hdel IH|m k q d m' Hk Hq Hlat Hdel IH]; intros rc Hstore; [exact Hstore| |].
+  - rewrite recv_run_cons. apply IH.
+    destruct (proj2 Hstr _ _ Hq) as (s & rel & He & Ha & Hc).
+    rewrite (firstn_snoc m evs _ He), live_fold_app, live_fold_one.
+    apply (store_step_head fl rc q s rel _ Hs Hd Hr Ha Hc Hstore).
+  - rewrite recv_run_cons. apply IH.
+    destruct (proj2 Hstr _ _ Hq) as (s & rel & He & Ha & Hc).
+    assert (Hsame : live_step (live_fold [] (firstn m evs)) s rel = live_fold [] (firstn m evs)).
+    { apply (live_latest evs k m s rel He Hk). intros j [s' rel'] Hj Hj'.
+      assert (Hlen : (j < length reqs)%nat) by (rewrite (proj1 Hstr); apply nth_error_Some; congruence).
+      destruct (nth_error reqs j) as [q'|] eqn:Eq'; [|apply nth_error_None in Eq'; lia].
+      destruct (proj2 Hstr _ _ Eq') as (s2 & rel2 & He2 & _ & Hc2).
+      rewrite Hj' in He2. inversion He2; subst s2 rel2. simpl.
+      pose proof (Hlat j q' Hj Eq') as Hne. rewrite Hc2, Hc, !cp_key_s2c in Hne. exact Hne. }
+    rewrite <- Hsame. apply (store_step_head fl rc q s rel _ Hs Hd Hr Ha Hc Hstore).
+Qed.
+
+
+(* every event is for an SRG the sender is configured with *)
+Definition accepted (sn : sender) (evs : list (session * bool)) : Prop :=
+  forall e, In e evs -> s_srg (fst e) <> 0%N /\ aget N.eqb (s_srg (fst e)) sn <> None.
+
+Lemma accepted_step sn g v evs : aget N.eqb g sn <> None -> accepted sn evs -> accepted (aset N.eqb g v sn) evs.
+Proof.
+  intros Hg H e He. destruct (H e He) as [A B]. split; [exact A|].
+  rewrite (aget_aset N.eqb N.eqb_eq). destruct (N.eqb (s_srg (fst e)) g); [discriminate|exact B].
+Qed.
+
+Lemma sender_run_stream evs : forall sn, accepted sn evs -> stream_of evs (snd (sender_run sn evs)).
+Proof.
+  induction evs as [|[s rel] t IH]; intros sn Ha.
+  - split; [reflexivity|]. intros [|j] q H; discriminate.
+  - destruct (Ha (s, rel) (or_introl eq_refl)) as [H0 Hc]. cbn [fst] in H0, Hc.
+    cbn [sender_run]. unfold sender_event. destruct (N.eqb_spec (s_srg s) 0); [contradiction|].
+    destruct (aget N.eqb (s_srg s) sn) as [[seq b]|] eqn:E; [|contradiction].
+    set (q := mkreq (s_srg s) (n64z (seq + 1)) (if rel then ADelete else AUpdate) (s2c s)).
+    specialize (IH (aset N.eqb (s_srg s) (n64z (seq + 1), push b q) sn)
+                   (accepted_step sn _ _ t ltac:(rewrite E; discriminate) (fun e He => Ha e (or_intror He)))).
+    destruct (sender_run _ t) as [sn2 l]. cbn [snd] in *. destruct IH as [Hl Hn]. split; [simpl; rewrite Hl; reflexivity|].
+    intros [|j] q' H; simpl in H.
+    + inversion H; subst q'. exists s, rel. repeat split; destruct rel; reflexivity.
+    + exact (Hn j q' H).
+Qed.
+
+(* independence at the sender: what SRG g's counter, backlog and substream look like does not depend on the events of
+   the other SRGs *)
+Definition evs_of (g : N) (evs : list (session * bool)) := filter (fun e => N.eqb (s_srg (fst e)) g) evs.
+
+Lemma sender_run_srg g evs : forall sn seq b,
+  g <> 0%N -> aget N.eqb g sn = Some (seq, b) -> (seq + N.of_nat (length (evs_of g evs)) < n64)%N ->
+  sent_of g (snd (sender_run sn evs)) = reqs_from g seq (evs_of g evs) /\
+  aget N.eqb g (fst (sender_run sn evs)) =
+    Some ((seq + N.of_nat (length (evs_of g evs)))%N, fold_left push (reqs_from g seq (evs_of g evs)) b).
+Proof.
+  induction evs as [|[s rel] t IH]; intros sn seq b Hg Hget Hlt.
+  - simpl. rewrite N.add_0_r. auto.
+  - cbn [sender_run evs_of filter fst]. fold (evs_of g t). unfold sender_event.
+    destruct (N.eqb_spec (s_srg s) g) as [Es|Es].
+    + (* an event of g *)
+      rewrite Es. destruct (N.eqb_spec g 0); [contradiction|]. rewrite Hget.
+      cbn [evs_of filter fst length] in Hlt. rewrite Es, N.eqb_refl in Hlt. fold (evs_of g t) in Hlt. cbn [length] in Hlt.
+      assert (Hseq : n64z (seq + 1) = (seq + 1)%N) by (unfold n64z; apply N.mod_small; lia).
+      rewrite Hseq.
+      specialize (IH (aset N.eqb g ((seq + 1)%N, push b (mkreq g (seq + 1) (if rel then ADelete else AUpdate) (s2c s))) sn)
+                     (seq + 1)%N (push b (mkreq g (seq + 1) (if rel then ADelete else AUpdate) (s2c s))) Hg).
+      rewrite (aget_aset N.eqb N.eqb_eq), N.eqb_refl in IH. specialize (IH eq_refl ltac:(lia)).
+      destruct (sender_run _ t) as [sn2 l]. cbn [fst snd] in *. destruct IH as [I1 I2].
+      cbn [sent_of filter q_srg]. rewrite N.eqb_refl. fold (sent_of g l). cbn [reqs_from length fold_left]. unfold act_of. split.
+      * rewrite I1. reflexivity.
+      * rewrite I2. f_equal. f_equal. lia.
+    + (* an event of another SRG, or an ignored one *)
+      cbn [evs_of filter fst] in Hlt. destruct (N.eqb_spec (s_srg s) g) as [|_]; [contradiction|]. fold (evs_of g t) in Hlt.
+      destruct (N.eqb_spec (s_srg s) 0) as [E0|E0].
+      * specialize (IH sn seq b Hg Hget Hlt). destruct (sender_run sn t) as [sn2 l]. exact IH.
+      * destruct (aget N.eqb (s_srg s) sn) as [[seq' b']|] eqn:E'.
+        -- specialize (IH (aset N.eqb (s_srg s) (n64z (seq' + 1), push b' (mkreq (s_srg s) (n64z (seq' + 1))
+                              (if rel then ADelete else AUpdate) (s2c s))) sn) seq b Hg).
+           rewrite (aget_aset N.eqb N.eqb_eq) in IH.
+           destruct (N.eqb_spec g (s_srg s)) as [Eg|_]; [congruence|]. specialize (IH Hget Hlt).
+           destruct (sender_run _ t) as [sn2 l]. cbn [fst snd] in *. destruct IH as [I1 I2].
+           cbn [sent_of filter q_srg]. destruct (N.eqb_spec (s_srg s) g); [contradiction|]. auto.
+        -- specialize (IH sn seq b Hg Hget Hlt). destruct (sender_run sn t) as [sn2 l]. exact IH.
+Qed.
+
+Lemma converges_head_multi g0 sn fl evs d :
+  f_stale fl = true -> f_drop fl = false -> f_relall fl = false -> accepted sn evs ->
+  let reqs := snd (sender_run sn evs) in
+  delivery_latest reqs 0 d (length reqs) ->
+  rc_store (recv_run fl (mkrecv [] [] g0) d) = expected_store (live_run evs).
+Proof.
+  intros Hs Hd Hr Ha reqs Hdel. unfold reqs in *.
+  pose proof (sender_run_stream evs sn Ha) as Hst.
+  rewrite (head_delivery_store_gen fl evs _ 0 d _ Hst Hs Hd Hr Hdel (mkrecv [] [] g0) eq_refl).
+  rewrite (proj1 Hst), firstn_all. reflexivity.
+Qed.
+
+Lemma pools_exact_head_multi g0 sn fl evs d :
+  f_stale fl = true -> f_drop fl = false -> f_relall fl = false -> accepted sn evs ->
+  fresh g0 -> (forall i, (i <= length evs)%nat -> uniq g0 (live_run (firstn i evs))) ->
+  let reqs := snd (sender_run sn evs) in
+  delivery_latest reqs 0 d (length reqs) ->
+  forall x sid, lease_at (rc_reg (recv_run fl (mkrecv [] [] g0) d)) x = Some sid <->
+                In (x, sid) (expected_leases g0 (live_run evs)).
+Proof.
+  intros Hs Hd Hr Ha Hf Hu reqs Hdel x sid. unfold reqs in *.
+  pose proof (sender_run_stream evs sn Ha) as Hst.
+  rewrite <- owner_expected.
+  pose proof (head_delivery_gen g0 fl evs _ 0 d _ Hst Hs Hd Hr Hdel Hu (mkrecv [] [] g0) ltac:(lia)
+                (pinv_fresh g0 Hf)) as (_ & _ & _ & Hl).
+  rewrite (proj1 Hst), firstn_all in Hl. apply Hl.
+Qed.
+
+(* ================================================================== *)
+(* 11. the free lists: what is reserved cannot be handed out            *)
+(* ================================================================== *)
+Definition alloc_ok (al : alloc) : Prop :=
+  NoDup (a_free al) /\ forall k, In k (a_free al) -> aget N.eqb k (a_leases al) = None.
+
+Lemma in_remove_first a x l : In x (remove_first a l) -> In x l.
+Proof. induction l as [|h r IH]; simpl; [tauto|]. destruct (N.eqb h a); simpl; [auto|]. intros [H|H]; auto. Qed.
+Lemma remove_first_nodup a l : NoDup l -> NoDup (remove_first a l) /\ ~ In a (remove_first a l).
+Proof.
+  induction l as [|h r IH]; simpl; intros H; [split; [constructor|tauto]|]. inversion H as [|? ? Hn Hd]; subst.
+  destruct (N.eqb_spec h a) as [->|Hne]; [split; assumption|].
+  destruct (IH Hd) as [A B]. split.
+  - constructor; [intros Hin; apply Hn, (in_remove_first a h r Hin)|exact A].
+  - simpl. intros [E|E]; [contradiction|exact (B E)].
+Qed.
+
+Lemma nodup_snoc {A} (l : list A) x : NoDup l -> ~ In x l -> NoDup (l ++ [x]).
+Proof.
+  induction l as [|h r IH]; simpl; intros Hn Hx; [constructor; [tauto|constructor]|]. inversion Hn as [|? ? Hnh Hnr]; subst.
+  constructor; [rewrite in_app_iff; simpl; intros [H|[H|[]]]; [contradiction|subst; tauto]|apply IH; tauto].
+Qed.
+
+Lemma a_reserve_ok al k sid : alloc_ok al -> alloc_ok (a_reserve al k sid).
+Proof.
+  intros [Hn Hf]. unfold a_reserve. destruct (aget N.eqb k (a_leases al)) eqn:E; [split; assumption|].
+  destruct (remove_first_nodup k _ Hn) as [A B]. split; [exact A|]. cbn [a_free a_leases].
+  intros k' Hk'. rewrite (aget_aset N.eqb N.eqb_eq).
+  destruct (N.eqb_spec k' k) as [->|_]; [contradiction|]. apply Hf, (in_remove_first k k' _ Hk').
+Qed.
+
+Lemma a_release_ok al k back : alloc_ok al -> alloc_ok (a_release al k back).
+Proof.
+  intros [Hn Hf]. unfold a_release. destruct (aget N.eqb k (a_leases al)) as [o|] eqn:E; [|split; assumption].
+  assert (Hk : ~ In k (a_free al)) by (intros Hin; rewrite (Hf k Hin) in E; discriminate).
+  cbn [a_free a_leases]. split.
+  - destruct back; [apply nodup_snoc; assumption|exact Hn].
+  - intros k' Hk'. simpl. simpl in Hk'. rewrite (aget_adel N.eqb N.eqb_eq). destruct (N.eqb_spec k' k); [reflexivity|].
+    apply Hf. destruct back; [apply in_app_or in Hk'; destruct Hk' as [H|[H|[]]]; [exact H|congruence]|exact Hk'].
+Qed.
+
+Definition reg_ok (g : registry) : Prop :=
+  (forall np, In np (g_v4 g) -> alloc_ok (p_al (snd np))) /\
+  (forall np, In np (g_na g) -> alloc_ok (p_al (snd np))) /\
+  (forall np, In np (g_pd g) -> alloc_ok (d_al (snd np))).
+
+Lemma upd_pool_ok pools n f :
+  (forall np, In np pools -> alloc_ok (p_al (snd np))) -> (forall p, alloc_ok (p_al p) -> alloc_ok (f p)) ->
+  forall np, In np (upd_pool pools n f) -> alloc_ok (p_al (snd np)).
+Proof.
+  intros H Hf np Hin. unfold upd_pool in Hin. apply in_map_iff in Hin. destruct Hin as ([n0 p0] & E & Hin).
+  cbn [fst snd] in E. destruct (N.eqb n0 n); subst np; cbn [snd p_al]; [apply Hf, (H _ Hin)|apply (H _ Hin)].
+Qed.
+Lemma upd_pd_ok pools n f :
+  (forall np, In np pools -> alloc_ok (d_al (snd np))) -> (forall d, alloc_ok (d_al d) -> alloc_ok (f d)) ->
+  forall np, In np (upd_pd pools n f) -> alloc_ok (d_al (snd np)).
+Proof.
+  intros H Hf np Hin. unfold upd_pd in Hin. apply in_map_iff in Hin. destruct Hin as ([n0 p0] & E & Hin).
+  cbn [fst snd] in E. destruct (N.eqb n0 n); subst np; cbn [snd d_al]; [apply Hf, (H _ Hin)|apply (H _ Hin)].
+Qed.
+
+Lemma d_reserve_ok d p sid : alloc_ok (d_al d) -> alloc_ok (d_reserve d p sid).
+Proof. intros H. unfold d_reserve. destruct (prefix_to_index d (fst p) (snd p)); [apply a_reserve_ok, H|exact H]. Qed.
+Lemma d_release_ok d p : alloc_ok (d_al d) -> alloc_ok (d_release d p).
+Proof. intros H. unfold d_release. destruct (prefix_to_index d (fst p) (snd p)); [apply a_release_ok, H|exact H]. Qed.
+
+Lemma reserve_cp_ok g c : reg_ok g -> reg_ok (reserve_cp g c).
+Proof.
+  intros (H4 & H6 & H7). unfold reserve_cp, reg_ok. cbn [g_v4 g_na g_pd]. split; [|split].
+  - destruct (c_v4 c); [|exact H4]. unfold reserve_v. destruct (resolve_v _ _ _); [|exact H4].
+    apply upd_pool_ok; [exact H4|intros p Hp; apply a_reserve_ok, Hp].
+  - destruct (c_v6 c); [|exact H6]. unfold reserve_v. destruct (resolve_v _ _ _); [|exact H6].
+    apply upd_pool_ok; [exact H6|intros p Hp; apply a_reserve_ok, Hp].
+  - destruct (c_pd c) as [p|]; [|exact H7]. destruct (N.ltb 0 (snd p)); [|exact H7].
+    unfold reserve_d. destruct (resolve_d _ _ _); [|exact H7].
+    apply upd_pd_ok; [exact H7|intros d Hd; apply d_reserve_ok, Hd].
+Qed.
+
+Lemma release_v_all_ok pools a : (forall np, In np pools -> alloc_ok (p_al (snd np))) ->
+  forall np, In np (release_v_all pools a) -> alloc_ok (p_al (snd np)).
+Proof.
+  intros H np Hin. unfold release_v_all in Hin. apply in_map_iff in Hin. destruct Hin as ([n0 p0] & E & Hin).
+  subst np. cbn [snd p_al]. apply a_release_ok, (H _ Hin).
+Qed.
+
+Lemma release_cp_ok fl g c : reg_ok g -> reg_ok (release_cp fl g c).
+Proof.
+  intros (H4 & H6 & H7). unfold release_cp, reg_ok. cbn [g_v4 g_na g_pd]. split; [|split].
+  - destruct (c_v4 c); [|exact H4]. destruct (f_relall fl); [apply release_v_all_ok, H4|].
+    unfold release_v. destruct (resolve_v _ _ _); [|exact H4].
+    apply upd_pool_ok; [exact H4|intros p Hp; apply a_release_ok, Hp].
+  - destruct (c_v6 c); [|exact H6]. destruct (f_relall fl); [apply release_v_all_ok, H6|].
+    unfold release_v. destruct (resolve_v _ _ _); [|exact H6].
+    apply upd_pool_ok; [exact H6|intros p Hp; apply a_release_ok, Hp].
+  - destruct (c_pd c) as [p|]; [|exact H7]. destruct (N.ltb 0 (snd p)); [|exact H7].
+    destruct (f_relall fl).
+    + unfold release_d_first. destruct (find _ _); [|exact H7].
+      apply upd_pd_ok; [exact H7|intros d Hd; apply d_release_ok, Hd].
+    + unfold release_d. destruct (resolve_d _ _ _); [|exact H7].
+      apply upd_pd_ok; [exact H7|intros d Hd; apply d_release_ok, Hd].
+Qed.
+
+Lemma recv_step_ok fl rc q : reg_ok (rc_reg rc) -> reg_ok (rc_reg (recv_step fl rc q)).
+Proof.
+  intros H. unfold recv_step. destruct (negb (f_stale fl) && N.leb (q_seq q) (last_of rc (q_srg q))); [exact H|].
+  destruct (q_act q); unfold recv_update, recv_delete; cbn [rc_reg rc_store];
+    repeat match goal with
+           | |- reg_ok (reserve_cp _ _) => apply reserve_cp_ok
+           | |- reg_ok (release_cp _ _ _) => apply release_cp_ok
+           | |- reg_ok (if ?b then _ else _) => destruct b
+           | |- reg_ok (match ?x with Some _ => _ | None => _ end) => destruct x
+           end; exact H.
+Qed.
+
+Lemma recv_run_ok fl d : forall rc, reg_ok (rc_reg rc) -> reg_ok (rc_reg (recv_run fl rc d)).
+Proof. induction d as [|q r IH]; intros rc H; [exact H|]. rewrite recv_run_cons. apply IH, recv_step_ok, H. Qed.
+
+(* a reserved address / prefix index is not on its pool's free list *)
+Definition free_at (g : registry) (f p : N) : list N :=
+  if N.eqb f 4 then match aget N.eqb p (g_v4 g) with Some pl => a_free (p_al pl) | None => [] end
+  else if N.eqb f 6 then match aget N.eqb p (g_na g) with Some pl => a_free (p_al pl) | None => [] end
+  else if N.eqb f 7 then match aget N.eqb p (g_pd g) with Some d => a_free (d_al d) | None => [] end
+  else [].
+
+Lemma aget_in_list {V} n (l : list (N * V)) v : aget N.eqb n l = Some v -> In (n, v) l.
+Proof.
+  induction l as [|[n0 v0] r IH]; simpl; [discriminate|].
+  destruct (N.eqb_spec n n0); [intros E; inversion E; subst; auto|auto].
+Qed.
+
+Lemma leased_not_free g f p k sid : reg_ok g -> lease_at g (f, p, k) = Some sid -> ~ In k (free_at g f p).
+Proof.
+  intros (H4 & H6 & H7). unfold lease_at, free_at, lease_v, lease_d.
+  destruct (N.eqb f 4).
+  { destruct (aget N.eqb p (g_v4 g)) as [pl|] eqn:E; [|discriminate]. intros Hl Hin.
+    destruct (H4 _ (aget_in_list _ _ _ E)) as [_ Hf]. cbn [snd] in Hf. rewrite (Hf k Hin) in Hl. discriminate. }
+  destruct (N.eqb f 6).
+  { destruct (aget N.eqb p (g_na g)) as [pl|] eqn:E; [|discriminate]. intros Hl Hin.
+    destruct (H6 _ (aget_in_list _ _ _ E)) as [_ Hf]. cbn [snd] in Hf. rewrite (Hf k Hin) in Hl. discriminate. }
+  destruct (N.eqb f 7); [|discriminate].
+  destruct (aget N.eqb p (g_pd g)) as [d|] eqn:E; [|discriminate]. intros Hl Hin.
+  destruct (H7 _ (aget_in_list _ _ _ E)) as [_ Hf]. cbn [snd] in Hf. rewrite (Hf k Hin) in Hl. discriminate.
+Qed.
+
+Lemma reserved_not_free fl g0 d l st f p k sid :
+  reg_ok g0 -> lease_at (rc_reg (recv_run fl (mkrecv l st g0) d)) (f, p, k) = Some sid ->
+  ~ In k (free_at (rc_reg (recv_run fl (mkrecv l st g0) d)) f p).
+Proof. intros H. apply leased_not_free. apply recv_run_ok. exact H. Qed.
+
+(* registries built by the constructors are fine *)
+Lemma nseq_lt a n x : In x (nseq a n) -> (a <= x)%N.
+Proof. revert a; induction n as [|n IH]; simpl; intros a; [tauto|]. intros [<-|H]; [lia|]. apply IH in H. lia. Qed.
+Lemma nseq_nodup a n : NoDup (nseq a n).
+Proof. revert a; induction n as [|n IH]; simpl; intros a; constructor; [|apply IH]. intros H. apply nseq_lt in H. lia. Qed.
+Lemma mk_pool_ok rs re ex : alloc_ok (p_al (mk_pool rs re ex)).
+Proof.
+  unfold mk_pool. cbn [p_al]. split; [|reflexivity]. cbn [a_free]. apply NoDup_rev. apply NoDup_filter.
+  destruct (N.ltb re rs); [constructor|apply nseq_nodup].
+Qed.
+Lemma mk_pd_ok net nb pl : alloc_ok (d_al (mk_pd net nb pl)).
+Proof. unfold mk_pd. cbn [d_al]. split; [|reflexivity]. cbn [a_free]. apply NoDup_rev, nseq_nodup. Qed.
